@@ -344,6 +344,46 @@ func genC14Plan(r *zsim.Rng) *sysPlan {
 		}
 		p.Events = append(pre, p.Events...)
 	}
+	// Targeted mode: a query longer than the prompt area (scrolled horizontally), its end pulled back by a
+	// few deletions or cursor moves, then mouse clicks on and around the prompt row: positions computed from
+	// the click refer to text that is no longer under the pointer.
+	if r.Chance(1, 6) {
+		var seq []sysEvent
+		long := make([]byte, 0, 400)
+		for i := r.Range(p.Cols/2+1, 2*p.Cols+10); i > 0; i-- {
+			long = append(long, "abcdef 日"[r.Intn(8)])
+		}
+		if r.Bool() {
+			seq = append(seq, sysEvent{Kind: "raw", Raw: append(append([]byte("\x1b[200~"), long...), "\x1b[201~"...)})
+		} else {
+			seq = append(seq, sysEvent{Kind: "raw", Raw: long})
+		}
+		seq = append(seq, sysEvent{Kind: "settle"})
+		for i := r.Intn(8); i > 0; i-- {
+			seq = append(seq, sysEvent{Kind: "keys", Keys: pick(r, "bspace", "bspace", "ctrl-w", "left", "home", "alt-bspace", "del"), DelayMs: r.Intn(5)})
+		}
+		for i := r.Range(1, 5); i > 0; i-- {
+			x := r.Range(1, p.Cols+1)
+			y := []int{1, 2, 3, p.Rows, p.Rows - 1, p.Rows - 2, r.Range(1, p.Rows+1)}[r.Intn(7)]
+			if y < 1 {
+				y = 1
+			}
+			b := []byte(fmt.Sprintf("\x1b[<0;%d;%dM\x1b[<0;%d;%dm", x, y, x, y))
+			if r.Chance(1, 3) {
+				b = append(b, b...) // double click
+			}
+			seq = append(seq, sysEvent{Kind: "raw", Raw: b, DelayMs: r.Intn(30)})
+			if r.Chance(1, 3) {
+				seq = append(seq, sysEvent{Kind: "keys", Keys: pick(r, "bspace", "a", "ctrl-u", "end")})
+			}
+		}
+		at := 0
+		if len(p.Events) > 0 {
+			at = r.Intn(len(p.Events) + 1)
+		}
+		p.Events = append(p.Events[:at:at], append(seq, p.Events[at:]...)...)
+		c14DropArg(p, "--no-mouse")
+	}
 	// how the session ends
 	end := sysEvent{Kind: "keys", DelayMs: genDelay(r)}
 	switch r.Intn(9) {
@@ -368,6 +408,17 @@ func genC14Plan(r *zsim.Rng) *sysPlan {
 	}
 	p.Events = append(p.Events, end)
 	return p
+}
+
+// c14DropArg removes a flag from the argument list (targeted modes that need the opposite).
+func c14DropArg(p *sysPlan, flag string) {
+	out := p.Args[:0:0]
+	for _, a := range p.Args {
+		if a != flag {
+			out = append(out, a)
+		}
+	}
+	p.Args = out
 }
 
 func runC14(c *runCtx) {
